@@ -55,6 +55,12 @@ CHECKS = {
                   "apply_transformation and par_apply_transformation at six levels under pools of 1-16 threads.",
              note="IEEE rounding on non-representable values and sin_cos are not modelled (rotation isometry is additionally checked numerically on the implementation with relative tolerance 1e-9); thread schedules not modelled.",
              technique="Lean 4 + Mathlib ring / linear_combination over an arbitrary commutative ring + exact differential correspondence at the Int instance", ref="DESIGN §7 C13"),
+ 'C14': dict(text="Theorems (exact decimals as Int): squared atom distance symmetric, non-negative, zero iff coincident; bounding box = none iff no atom, otherwise every atom inside and every face attained (tightest box); contact predicate symmetric and equal to 'some atom pair closer than the cut-off'; "
+                  "wrapped squared distance in an orthogonal cell containing both atoms = minimum over the 27 neighbouring images (and is one of them); overlap predicates are none exactly when a radius is missing and otherwise d <= r_a + r_b with radii REGENERATED from elements.rs. "
+                  "R*-tree clause (rstar's code; specification = brute force scan): DECIDED BY THE CORRESPONDENCE ALONE - tree size = atom count, every atom once, radius queries of the atom tree and the hierarchy tree (with actual ancestors) and nearest neighbour equal the brute-force scan. "
+                  "Tie: k/8 coordinates (squares exact in f64), coincident atoms, cut-offs and radii on half-steps so that no query lies on a rounding tie.",
+             note="sqrt is avoided by comparing squares; IEEE rounding on arbitrary coordinates not modelled; the map-building loop of chains_in_contact is tied by correspondence (its predicate is proved).",
+             technique="Lean 4 + Mathlib (ring, nlinarith, omega) on Int-valued geometry + regenerated radii + differential correspondence; R*-tree by brute-force comparison", ref="DESIGN §7 C14"),
 }
 NOT_APPLICABLE = {}
 ALL = ['C%02d' % i for i in range(1, 19)]
